@@ -48,5 +48,28 @@ impl DataModel {
             // [accepted_system_version_is_applied_whole]
             r is Ok ==> accepted(*old(self), spec_parse(model@, 0), true, *final(self)),
 //@ end
+
+// ---- the running instance: GraphDatabase::update_data_model (src/database/graph_database.rs), the statements that write an accepted
+// version and make it the running model (E9 range form, after the local `impl Writeable for Serialized`).  The version handed over
+// was accepted on a COPY (fix 8a49818); the write (configuration row + index maintenance, one transaction) can still fail.
+/// the version was written by a successful write of the batch writer: a fact only that contract establishes
+pub uninterp spec fn model_written(text: Seq<char>, m: DataModel) -> bool;
+pub struct Serialized(pub String, pub DataModel);
+pub struct BufferedDatabaseWriter { x: u8 }
+impl BufferedDatabaseWriter {
+    #[verifier::external_body]
+    pub async fn write(&self, w: Box<Serialized>) -> (r: std::result::Result<(), Error>) ensures r is Ok ==> model_written(w.0@, w.1) { unimplemented!() }
+}
+pub struct Database { pub writer: BufferedDatabaseWriter }
+pub struct GraphDatabase { pub data_model: DataModel, pub graph_database: Database }
+//@ extract src/database/graph_database.rs :: impl GraphDatabase / fn update_data_model as GraphDatabase::lifted_publish_model
+//@ lift-range after "impl Writeable for Serialized" .. "Ok(str)" :: async fn lifted_publish_model(&mut self, str: String, data_model: DataModel) -> (r: std::result::Result<String, Error>) tail "Ok(str)"
+//@ spec
+        ensures
+            // [version_refused_by_the_write_leaves_the_running_model_untouched] a version whose write fails (the transaction is rolled back: nothing is stored) has no effect on the running instance either: the running model is replaced only after the write succeeded
+            r is Err ==> final(self).data_model == old(self).data_model,
+            // [accepted_version_is_written_then_made_the_running_model] success: the version was written, as given, and is the running model
+            r is Ok ==> model_written(str@, data_model) && final(self).data_model == data_model && r->Ok_0@ == str@,
+//@ end
 } // verus!
 fn main() {}
